@@ -1,6 +1,7 @@
 #!/bin/bash
 # tryseed.sh <patch.diff> <check ids...> : apply a seeded change to /repo, run the named checks (quick), always undo.
 P=$1; shift
+[ -z "$(git -C /repo status --porcelain --untracked-files=no)" ] || { echo "/repo has uncommitted changes: refusing (the undo would discard them)"; exit 2; }
 cd /repo && git apply "$P" || { echo "patch does not apply"; exit 2; }
 trap 'git -C /repo checkout -- .' EXIT
 for c in "$@"; do
